@@ -434,3 +434,117 @@ func NumCPU() int {
 func simProcs() int {
 	return []int{1, 2, 4, 16}[(cfg.Seed>>7)%4]
 }
+
+// sync.Cond shims: Wait releases the (shimmed) lock, parks the task in the simulator until a Signal or
+// Broadcast names it, and takes the lock again; the real Cond is never waited on. Like the real one,
+// a Signal without a waiter is lost. The happens-before edges are those of the lock.
+type condEntry struct {
+	ptr     unsafe.Pointer
+	waiters [HarnessTasks + 24]int
+	n       int
+}
+
+var conds [32]condEntry
+
+//go:norace
+func condFind(p unsafe.Pointer) *condEntry {
+	for i := range conds {
+		if conds[i].ptr == p {
+			return &conds[i]
+		}
+	}
+	for i := range conds {
+		if conds[i].ptr == nil || conds[i].n == 0 {
+			conds[i] = condEntry{ptr: p}
+			return &conds[i]
+		}
+	}
+	panic("zzsimrt: too many sync.Conds")
+}
+
+// CondWait replaces c.Wait().
+func CondWait(c *sync.Cond) {
+	if cur() == nil {
+		c.Wait()
+		return
+	}
+	switch l := c.L.(type) {
+	case *sync.Mutex:
+		condEnqueue(c)
+		MutexUnlock(l)
+		condPark(c)
+		MutexLock(l)
+	case *sync.RWMutex:
+		condEnqueue(c)
+		RWUnlock(l)
+		condPark(c)
+		RWLock(l)
+	default:
+		panic("zzsimrt: sync.Cond with a Locker that is neither *sync.Mutex nor *sync.RWMutex")
+	}
+}
+
+//go:norace
+func condEnqueue(c *sync.Cond) {
+	t := cur()
+	e := condFind(unsafe.Pointer(c))
+	if e.n >= len(e.waiters) {
+		panic("zzsimrt: too many waiters on one sync.Cond")
+	}
+	e.waiters[e.n] = idx(t)
+	e.n++
+	t.condWait = true
+}
+
+//go:norace
+func condPark(c *sync.Cond) {
+	t := cur()
+	for t.condWait {
+		t.state = tsBlocked
+		t.blockedOn = -1
+		reschedule(t, EvBlocked)
+	}
+}
+
+// CondSignal replaces c.Signal().
+//
+//go:norace
+func CondSignal(c *sync.Cond) {
+	t := cur()
+	if t == nil {
+		c.Signal()
+		return
+	}
+	e := condFind(unsafe.Pointer(c))
+	if e.n > 0 {
+		w := e.waiters[0]
+		copy(e.waiters[:], e.waiters[1:e.n])
+		e.n--
+		tasks[w].condWait = false
+		tasks[w].state = tsRunnable
+		progress++
+	}
+	reschedule(t, EvRelease)
+}
+
+// CondBroadcast replaces c.Broadcast().
+//
+//go:norace
+func CondBroadcast(c *sync.Cond) {
+	t := cur()
+	if t == nil {
+		c.Broadcast()
+		return
+	}
+	e := condFind(unsafe.Pointer(c))
+	for i := 0; i < e.n; i++ {
+		w := e.waiters[i]
+		tasks[w].condWait = false
+		tasks[w].state = tsRunnable
+	}
+	if e.n > 0 {
+		progress++
+	}
+	e.n = 0
+	reschedule(t, EvRelease)
+}
